@@ -6,11 +6,14 @@ import (
 	"fmt"
 	"time"
 
+	coresequencer "github.com/evstack/ev-node/core/sequencer"
+
 	"verif/harness/sim"
 )
 
 // aggRun interprets aggregator-side operations shared by several checks (C04, C06, C07, C08, C11).
 //
+//	same(A=class)        submit a batch with a fixed tx list straight to the sequencer (identical blocks)
 //	tx(A=n, B=content)   inject n transactions (B=0: unique bytes; B>0: repeat of an earlier content class)
 //	reap                 one reaper iteration
 //	produce              one publishBlock
@@ -111,6 +114,14 @@ func (r *aggRun) exec(op sim.Op, crashK int) (fired bool, err error) {
 			tx := r.nextTx(op.B % 3)
 			r.Injected = append(r.Injected, tx)
 			n.Exec.InjectTx(tx)
+		}
+		return false, nil
+	case "same":
+		// a client other than the reaper hands the sequencer a batch with a fixed transaction list
+		// (two blocks with identical contents; the reaper itself never resubmits bytes it has seen)
+		if n.Alive && n.Seq != nil {
+			txs := [][]byte{[]byte(fmt.Sprintf("same%d=1", op.A%2))}
+			_, _ = n.Seq.SubmitBatchTxs(context.Background(), coresequencer.SubmitBatchTxsRequest{Id: []byte(n.W.Genesis.ChainID), Batch: &coresequencer.Batch{Transactions: txs}})
 		}
 		return false, nil
 	case "sleep":
